@@ -53,7 +53,8 @@ Fixpoint be_min_aux (fuel : nat) (n : N) (acc : bytes) : bytes :=
   | O => acc
   | S f => if n =? 0 then acc else be_min_aux f (n / 256) (n2b n :: acc)
   end.
-Definition be_min (n : N) : bytes := be_min_aux 9 n [].
+(* fuel: one step per byte; the bit size of n is always enough *)
+Definition be_min (n : N) : bytes := be_min_aux (S (N.size_nat n)) n [].
 
 Definition blen (b : bytes) : N := N.of_nat (length b).
 
